@@ -352,3 +352,23 @@ func Select(cases ...SelCase) int {
 	}
 	return r[Choose(len(r), "select-case")]
 }
+
+// Quiesce blocks the calling thread until no other thread is enabled, i.e.
+// until every library goroutine has run as far as it can (parked on a timer,
+// a sleep or a channel). Used by sequential harnesses that want background
+// work (e.g. TGT auto-renewal) finished before the next event.
+func Quiesce() {
+	s := S
+	if s == nil || s.aborted {
+		return
+	}
+	me := s.cur
+	Point("quiesce", func() bool {
+		for _, t := range s.Threads {
+			if t != me && !t.Done && t.pred != nil && t.Kind != "quiesce" && t.pred() {
+				return false
+			}
+		}
+		return true
+	})
+}
